@@ -91,6 +91,7 @@ def impl_init():
         except DatabaseError as e:
             return {"dberr": {"err": type(e).__name__, "line": getattr(e, "line_number", None)}}
         out = {}
+        dump0 = U.dump_db(db)
         for ei, edb in enumerate(empties):
             for what, call in (("tcp-syn", lambda: impersonate_tcp(IP() / TCP(flags="S", seq=1), raw_label="s:unix:Linux:3.11 and newer", database=edb)),
                                ("tcp-synack", lambda: impersonate_tcp(IP() / TCP(flags="SA", seq=1, ack=1), raw_label="s:unix:Linux:3.x", database=edb)),
@@ -129,12 +130,14 @@ def impl_init():
                         if si == 0:
                             impersonate_mtu(base, raw_label=q, database=db)
                         else:
-                            impersonate_tcp(base, raw_label=q, database=db)
+                            impersonate_tcp(base, raw_label=q, database=db, extra_hops=1 + len(q) % 5)
                     except Exception as e:  # impersonation itself is C05's / C08's subject
                         pass
                     ch = state["chosen"]
                     if ch is None or ch.line_number != res["ok"][-1]:
                         out["%s|%s|imp" % (q, SECS[si])] = "impersonation did not draw from the label's records of that kind/direction"
+        if U.dump_db(db) != dump0:
+            out["records|changed|imp"] = "the records filed in the database changed while they were looked up / used for impersonation"
         return out
     return impl
 
